@@ -139,6 +139,9 @@ def run(ctx):
                         or etl.issorted(t2, 'f', reverse=True) != (not lt_ab) \
                         or etl.issorted(t2, 'f', reverse=True, strict=True) != lt_ba:
                     ctx.spec_fail('use|issorted|' + hl, 'issorted(key) disagrees with the ordering', case)
+                t1c = [['f'], [a], [b]]
+                if etl.issorted(t1c) != (not lt_ba) or etl.issorted(t1c, strict=True) != lt_ab:
+                    ctx.spec_fail('use|issorted-key-none|' + hl, 'issorted(key=None) disagrees with the ordering', case)
                 t1 = [['f'], [a]]
                 got = (len(list(etl.selectlt(t1, 'f', b))) == 2, len(list(etl.selectle(t1, 'f', b))) == 2,
                        len(list(etl.selectgt(t1, 'f', b))) == 2, len(list(etl.selectge(t1, 'f', b))) == 2)
